@@ -124,6 +124,14 @@ fn chan_matches(spec: &str, id: &str) -> bool {
     }
 }
 
+/// Directed polls that deliver a channel message do not let nested futures touch the file system: the first
+/// environment interaction of a freshly created future (e.g. the build future's up-to-date check) yields, so that
+/// "handle a message" and "first poll of the build future" are separate schedule steps, as in the SYS model.
+pub fn fs_may_proceed() -> bool {
+    let r = rt();
+    r.allow_all || r.allow.is_none() || r.cur_task == 0
+}
+
 pub fn recv_consumed(id: &str) {
     let r = rt();
     if !r.allow_all {
